@@ -364,6 +364,20 @@ class Scheduler:
                 self.join(st)
 
 
+class _Items(list):
+    """the queue's container, with the deque operations queue.Queue.queue offers"""
+
+    def appendleft(self, x):
+        self.insert(0, x)
+
+    def popleft(self):
+        return self.pop(0)
+
+    def extendleft(self, it):
+        for x in it:
+            self.insert(0, x)
+
+
 class SchedQueue:
     """Drop-in for queue.Queue inside auditok.workers, bound to one scheduler.
     Called from a thread the scheduler does not manage (a finalizer, a thread
@@ -374,10 +388,20 @@ class SchedQueue:
     def __init__(self, maxsize=0):
         self.sched = SchedQueue.current_scheduler
         self.maxsize = maxsize if maxsize and maxsize > 0 else 0
-        self._items = []
+        self._items = _Items()
         self._plain = threading.Lock()
+        # the attributes of queue.Queue that code reaches for when it wants more than put/get (a message placed at the head, a
+        # peek under the queue's own lock): the container with the deque operations, the lock and its conditions, in logical time
+        self.mutex = SchedLock()
+        self.not_empty = SchedCondition(self.mutex)
+        self.not_full = SchedCondition(self.mutex)
+        self.all_tasks_done = SchedCondition(self.mutex)
         self.owner = None  # name of the worker whose inbox this is (filled in lazily)
         self.put_log = []
+
+    @property
+    def queue(self):
+        return self._items
 
     # -- helpers
     def _managed(self):
